@@ -329,6 +329,13 @@ func (x *fsExec) check() (viol []sched.Violation, summary string, nontrivial boo
 			failedChan = map[string]string{}
 		case "register":
 			msgs := byStream[e.Key]
+			if e.Reg != nil && len(e.Reg.MsgID) > 0 {
+				// a stream is resumed from a position of its own physical channel (its own checkpoint, or - the vchannels of a
+				// physical channel share one log - that of a neighbour on it), never from another channel's
+				if ref, ok := x.packEnd[string(e.Reg.MsgID)]; ok && funcutil.ToPhysicalChannel(ref.Stream) != funcutil.ToPhysicalChannel(e.Key) {
+					add("C05/resume/foreign-position", "stream %s was subscribed at position %q, which is the end of pack %d of stream %s on another physical channel (event %d)", e.Key, e.Reg.MsgID, ref.Pack, ref.Stream, e.N)
+				}
+			}
 			if e.Reg == nil || len(e.Reg.MsgID) == 0 {
 				for _, s := range msgs {
 					if s.Pack < e.First && !acked[s.Key] {
@@ -856,6 +863,14 @@ func fsC05Scenarios(thorough bool) []*fsScenario {
 		c.Shards[1].Script = fsTail([]fsPack{fpIns(1001), fpIns(1011)}, 1)
 		sc := &fsScenario{Name: "crash:2shards", Colls: []*fsColl{c}, Tasks: []fsTask{{ID: "t0", URI: fsURI, Coll: "c1"}}, MaxCount: 1, Crash: true, ParkGet: true}
 		out = append(out, sc)
+	}
+	// two shards whose source channels are in a prefix relation (dml_1 / dml_10: every source with more than ten
+	// channels has such pairs), streams skewed at the stop: each channel resumes from its own checkpoint
+	{
+		c := fsMkColl(101, "c1", "src-dml_1", "src-dml_10")
+		c.Shards[0].Script = fsTail([]fsPack{fpIns(1000), fpDel(1010), fpIns(1020)}, 1)
+		c.Shards[1].Script = fsTail([]fsPack{fpIns(1001), fpIns(1011), fpDel(1021)}, 1)
+		out = append(out, &fsScenario{Name: "crash:2shards-prefix-names", Colls: []*fsColl{c}, Tasks: []fsTask{{ID: "t0", URI: fsURI, Coll: "c1"}}, MaxCount: 1, Crash: true})
 	}
 	// two collections of one task multiplexed on one source channel and one downstream channel, clocks skewed
 	for _, skew := range []int64{0, 1000, -500} {
